@@ -102,13 +102,7 @@ pub fn ser_ascii<const K: usize>(nd: &mut Nd) {
         b[i] = nd.ascii();
         i += 1;
     }
-    let s = match core::str::from_utf8(&b) {
-        Ok(s) => s,
-        Err(_) => {
-            nd.assume(false);
-            return;
-        }
-    };
+    let s = crate::nd::str_of(&b);
     match K {
         1 => {
             diff::<str, 8>(nd, s);
@@ -135,13 +129,7 @@ pub fn ser_str2(nd: &mut Nd) {
     if n >= 2 {
         len += c1.encode_utf8(&mut b[len..]).len();
     }
-    let s = match core::str::from_utf8(&b[..len]) {
-        Ok(s) => s,
-        Err(_) => {
-            nd.assume(false);
-            return;
-        }
-    };
+    let s = crate::nd::str_of(&b[..len]);
     diff::<str, 14>(nd, s);
 }
 
@@ -301,8 +289,8 @@ pub fn ser_shape_seq(nd: &mut Nd) {
 /// Sequence of strings: `["a","b"]`, symbolic length 0..=2.
 pub fn ser_shape_seq_str(nd: &mut Nd) {
     let b = [nd.ascii(), nd.ascii()];
-    let s0 = core::str::from_utf8(&b[0..1]).unwrap_or("");
-    let s1 = core::str::from_utf8(&b[1..2]).unwrap_or("");
+    let s0 = crate::nd::str_of(&b[0..1]);
+    let s1 = crate::nd::str_of(&b[1..2]);
     let arr = [s0, s1];
     let n = nd.below(3);
     diff::<[&str], 19>(nd, &arr[..n]);
@@ -393,7 +381,7 @@ pub struct KeyNewtype<'a>(pub &'a str);
 /// struct around a string.
 pub fn ser_key_accepted(nd: &mut Nd) {
     let b = [nd.ascii()];
-    let s = core::str::from_utf8(&b).unwrap_or("");
+    let s = crate::nd::str_of(&b);
     let hint = nd.bool();
     match nd.below(3) {
         0 => {
